@@ -8,7 +8,8 @@ A case is a whole history: space-separated operations
   D=<name>=<env>  DELETE /config/apps/<name>
   J               POST /config/ with a body that is not JSON
   S               caddy.Stop
-cfg  = <top>~<logs>~<apps>          logs = - | mod+mod…      apps = - | app;app…
+cfg  = <top>~<logs>~<apps>[~<stor>]  logs = - | mod+mod…      apps = - | app;app…
+       stor = <fault>:<key> — the storage module (key 0 / absent: none, 1‥3: probe storage)
 app  = <name>,<tag>,<fault>,<listen>,<mods>    listen = - | n.n…   mods = - | mod+mod…
 mod  = <fault>:<key>
 env  = <force>,<post>,<adm>,<blocked>,<pp>,<ps>   (lists: - | n.n…; adm 0|1|2)
@@ -55,13 +56,20 @@ def logsOk (l : List Mod) : Bool :=
   l.length ≤ 3 && l.all (fun m => 1 ≤ m.key) && (l.map (·.key)).Nodup &&
   (l.all (fun m => m.fault = 0) || l.length ≤ 1)
 
+def parseCfg3 (t l a : String) (st : Mod) : Option Cfg := do
+  let t ← t.toNat?
+  let l ← parseMods l
+  let a ← if a == "-" then some [] else (a.splitOn ";").mapM parseApp
+  if t ≤ 3 ∧ logsOk l ∧ strictlySorted (a.map (·.name)) ∧ st.key ≤ 3 ∧ (st.key = 0 → st.fault = 0)
+  then some ⟨t, l, a, st⟩ else none
+
 def parseCfg (s : String) : Option Cfg :=
   match s.splitOn "~" with
-  | [t, l, a] => do
-    let t ← t.toNat?
-    let l ← parseMods l
-    let a ← if a == "-" then some [] else (a.splitOn ";").mapM parseApp
-    if t ≤ 3 ∧ logsOk l ∧ strictlySorted (a.map (·.name)) then some ⟨t, l, a⟩ else none
+  | [t, l, a] => parseCfg3 t l a ⟨0, 0⟩
+  | [t, l, a, st] => do
+    let st ← parseMod st
+    -- canonical: the fourth component is written only when a storage module is configured
+    if st.key = 0 then none else parseCfg3 t l a st
   | _ => none
 
 def parseBool (s : String) : Option Bool :=
@@ -72,13 +80,14 @@ def namesOk (l : List Nat) : Bool := l.all (· ≤ 3) && l.Nodup
 def parseEnv (s : String) : Option Env :=
   match s.splitOn "," with
   | [f, p, a, b, pp, ps] => do
-    let f ← parseBool f
+    -- how the load is submitted (0‥5, see harness types.go); odd = forceReload
+    let f ← if f.length = 1 then f.toNat? else none
     let p ← parseBool p
     let a ← a.toNat?
     let b ← natList b
     let pp ← natList pp
     let ps ← natList ps
-    if a ≤ 2 ∧ b.all (· < 8) ∧ namesOk pp ∧ namesOk ps then some ⟨f, p, a, b, pp, ps⟩ else none
+    if f ≤ 5 ∧ a ≤ 2 ∧ b.all (· < 8) ∧ namesOk pp ∧ namesOk ps then some ⟨f % 2 == 1, p, a, b, pp, ps⟩ else none
   | _ => none
 
 def opAdm : Op → Option Nat
@@ -124,7 +133,8 @@ def showApp (a : App) : String :=
   s!"{a.name},{a.tag},{a.fault},{showNats a.listen},{showMods a.mods}"
 
 def showCfg (c : Cfg) : String :=
-  s!"{c.top}~{showMods c.logs}~" ++ (if c.apps.isEmpty then "-" else ";".intercalate (c.apps.map showApp))
+  s!"{c.top}~{showMods c.logs}~" ++ (if c.apps.isEmpty then "-" else ";".intercalate (c.apps.map showApp)) ++
+    (if c.stor.key = 0 then "" else s!"~{c.stor.fault}:{c.stor.key}")
 
 def showRes : Res → String
   | .ok => "ok" | .same => "same"
